@@ -680,6 +680,14 @@ def gen_instances(ctx: Ctx):
         elif c < 0.2:
             flags["orient"] = True
         yield "molecule", "Molecule", gen_molecule(rng), flags
+    # fractional fragment charges whose float sum carries binary round-off (0.1 + 0.2): the stored total IS that sum
+    for _ in range(24 * n):
+        kw = gen_molecule(rng, minimal_p=0.0)
+        while "fragments" not in kw:
+            kw = gen_molecule(rng, minimal_p=0.0)
+        kw.pop("molecular_charge", None)
+        kw["fragment_charges"] = [rng.choice([0.1, 0.2, 0.7, 0.1, -0.3, 1.1, 0.3]) for _ in kw["fragments"]]
+        yield "molecule", "Molecule", kw, ({"revalidate_false": True} if rng.random() < 0.15 else {})
     for _ in range(160 * n):
         yield "basis", "BasisSet", gen_basis(rng), {}
     for _ in range(120 * n):
@@ -1940,7 +1948,7 @@ def run(ctx: Ctx) -> Outcome:
     built = check_instances(ctx, out, items)
     nmol = 0
     for stream, model, case, inst, doc, _, _b in built:
-        if model == "Molecule" and nmol < ctx.scale(150, 1500):
+        if model == "Molecule" and nmol < ctx.scale(400, 3200):
             nmol += 1
             check_molecule_rebuild(ctx, out, inst, case)
     run_partb(ctx, out)
